@@ -416,8 +416,6 @@ class Spectrum(object):
             self.__psd = newpsd
         self.__sides = sides
         logging.debug('------------> %s %s' % (self.__sides, sides))
-        # we set the PSD by hand, so we can consider that PSD is up-to-date
-        self.modified = False
     _doc_sides = """Getter/Setter to the :attr:`sides` attributes.
 
     It can be 'onesided', 'twosided', 'centerdc'. This setter changes
